@@ -2,6 +2,7 @@ package cli
 
 import (
 	"fmt"
+	"strings"
 	"testing"
 
 	"pgregory.net/rapid"
@@ -72,7 +73,50 @@ func genC09(t *rapid.T) C09Case {
 	}
 	c := C09Case{Spec: spec, Pre: a.Argv, Kinds: a.Kinds, ROAt: roAt}
 	lv := a.Cur()
-	c.Kind = rapid.SampledFrom([]string{"positional", "positional", "unknown", "dash"}).Draw(t, "stopkind")
+	c.Kind = rapid.SampledFrom([]string{"positional", "positional", "unknown", "unknown-repeat", "dash"}).Draw(t, "stopkind")
+	if c.Kind == "unknown-repeat" {
+		// an option spelling already used earlier on the line (at a level where it is declared) that is NOT
+		// declared at the level the stop token stands at: a wrapper command handing its own flags on
+		c.Kind = "unknown"
+		var again []string
+		for _, tok := range a.Argv {
+			if !strings.HasPrefix(tok, "--") || len(tok) < 3 {
+				continue
+			}
+			name := strings.SplitN(tok[2:], "=", 2)[0]
+			if key, cands := resolve(lv, name); key == "" && len(cands) == 0 {
+				if rk, _ := resolve(spec.Levels(), name); rk != "" {
+					again = append(again, tok)
+				}
+			}
+		}
+		if len(again) == 0 {
+			// none on the line yet: give a root flag that is not declared here at the very start of the line
+			root := spec.Levels()
+			var flags []string
+			for _, k := range root.VisibleKeys() {
+				if k == "-" || !root.Visible[k].Spec.Kind.IsFlag() {
+					continue
+				}
+				if key, cands := resolve(lv, k); key == "" && len(cands) == 0 {
+					flags = append(flags, k)
+				}
+			}
+			if len(flags) > 0 {
+				tok := "--" + rapid.SampledFrom(flags).Draw(t, "stoprootflag")
+				c.Pre = append([]string{tok}, c.Pre...)
+				c.Kinds = append([]string{"known:Bool"}, c.Kinds...)
+				if c.ROAt > 0 {
+					c.ROAt++
+				}
+				again = append(again, tok)
+			}
+		}
+		if len(again) > 0 {
+			c.Kind = "unknown-repeat"
+			c.Stop = BS(rapid.SampledFrom(again).Draw(t, "stopagain"))
+		}
+	}
 	switch c.Kind {
 	case "positional":
 		for try := 0; ; try++ {
@@ -206,7 +250,16 @@ func checkC09(c C09Case, st *evid.Stats) error {
 	if P.Panic != "" {
 		return failf("panic: %s", P.Panic)
 	}
-	if P.ParseFailed || !eqStrs(P.Remaining, append(append([]string{}, A.Remaining...), stop)) || optsDiff(strip(A.Opts), strip(P.Opts)) != "" {
+	// An option-looking candidate that matches nothing at its level per the reference model is a stop token
+	// whatever the implementation makes of it without require-order (otherwise a defect that swallows such a
+	// token in both configurations would remove the case from the check).
+	modelUnknown := false
+	for _, ix := range m2.UnknownTok {
+		if ix == len(c.Pre) {
+			modelUnknown = true
+		}
+	}
+	if !modelUnknown && (P.ParseFailed || !eqStrs(P.Remaining, append(append([]string{}, A.Remaining...), stop)) || optsDiff(strip(A.Opts), strip(P.Opts)) != "") {
 		st.Exclude("stop candidate is a value of the preceding option, a known option or a command name there")
 		return nil
 	}
